@@ -80,6 +80,15 @@ CHECKS = {
             'compared by effect with the originals.',
             'exec() in a fresh namespace stands for importing the written '
             'file.', '3/C13'),
+    'C09': ('exploration',
+            'exhaustive driving of the real DependencyGraph over all small '
+            'digraphs with an independent topological-order oracle; '
+            'signal-order monitor on generated projects',
+            'Every digraph of the scope is fed to the real ordering code; '
+            'acyclic graphs must come back as a dependency-respecting '
+            'permutation, cyclic ones must raise.',
+            'The ordering core is DependencyGraph.get_ordered(); exhaustive '
+            'only for the stated node counts.', '3/C09'),
 }
 
 NOT_YET = 'check under construction (round 1)'
